@@ -13,7 +13,7 @@ func init() {
 		Explanation: "Decides the structural conditions of bounded, once-only, never-self-addressed gossip: (R1) in Agent.Send the message is encoded and sent only under TTL > 0 (strictly: a negative TTL must not travel), the TTL is decremented exactly once, unconditionally, before the message is encoded; " +
 			"(R2) tasks are created and the batch republished only on the not-yet-processed edge of wasProcessed, and wasProcessed records the digest it looked up on every path on which it answers 'not processed' with a cache present; (R3) the exclusion list handed to the topology contains the agent itself and the source, exclusion is applied before selection and compares peers by name (the agent's own entry in the topology is a different object than Agent.Self); " +
 			"(R4) the topology map and its peer lists are accessed only under the topology mutex; (R5) a peer list obtained by map lookup is nil-tested before use.",
-		Added:       "Also (R2) the cache option installs a cache on every path and each message is decoded into its own batch; (R6) every gossip lock is released on every exit.",
+		Added:       "Also (R2) the cache option installs a cache on every path and each message is decoded into its own batch; (R6) every gossip lock is released on every exit. Third round: (R4) peer lists are read under the topology lock and changed by membership notifications only; (R2) goroutines started in a loop own their loop variables.",
 		Assumptions: []string{"memberlist delivers join/leave events from its own goroutines"},
 		Declined:    "termination of dissemination as a network-level statement; consistency under all interleavings.",
 	}, runC18)
@@ -124,7 +124,15 @@ func runC18(c *Ctx) {
 			}
 			// wasProcessed is asked about the decoded batch
 			for _, call := range callsIn(loop, func(k *ssa.CallCommon) bool { return k.StaticCallee() == wp }) {
-				a := p.TermOf(callCommon(call).Args[1])
+				var a *Term
+				for _, av := range callCommon(call).Args {
+					if namedIs(av.Type(), "protocol", "BatchSnapshots") {
+						a = p.TermOf(av)
+					}
+				}
+				if a == nil {
+					a = p.TermOf(callCommon(call).Args[len(callCommon(call).Args)-1])
+				}
 				okA := a.Op == "alloc" || a.Op == "struct"
 				c.Check(okA, "R2", funcName(loop)+":asked-about", call.Pos(), "wasProcessed(the decoded batch)", "wasProcessed is asked about "+a.String())
 			}
@@ -225,17 +233,14 @@ func runC18(c *Ctx) {
 		// Each: Take(Shuffle(Exclude(list, l)), n)
 		okE := false
 		var got string
-		eachInstr(each, func(in ssa.Instruction) {
-			cc := callCommon(in)
-			if cc == nil || cc.StaticCallee() == nil || cc.StaticCallee().Name() != "Append" {
-				return
-			}
-			t := p.TermOf(cc.Args[1])
+		er := p.RegionOf(each, 3)
+		for _, ri := range er.Calls(func(cc *ssa.CallCommon) bool { return cc.StaticCallee() != nil && cc.StaticCallee().Name() == "Append" }) {
+			t := er.Term(ri.site, callCommon(ri.in).Args[1])
 			got = t.String()
 			okE = t.Op == "call" && t.Fn != nil && t.Fn.Name() == "Take" && t.Args[1].IsParam(each, 1) && t.Args[0].Has(func(x *Term) bool {
 				return x.Op == "call" && x.Fn != nil && x.Fn.Name() == "Exclude" && x.Args[1].IsParam(each, 2)
 			})
-		})
+		}
 		c.Check(okE, "R3", funcName(each), each.Pos(), "per role: Take(n) of the list after Exclude(l)", "Topology.Each appends "+got+", expected Exclude(l) applied before Take(n)")
 		// Exclude compares by name
 		excl := p.MustMethod("gossip", "PeerList", "Exclude")
